@@ -85,7 +85,12 @@ def rule_printfilter(P) -> RuleResult:
         for p in paths:
             inner = loop_events(p, table)
             if inner is None:
-                raise AnalysisError(f'{fi.fq}: no scan of the table of the PRINT statement found')
+                ok = False
+                sink = [e for e in p.events if e[0] == 'call' and str(e[1]).endswith('print_entries')]
+                res.fail(fi.fq, 'print:source', f'with the FROM condition {desc} PRINT does not iterate its table: it prints '
+                         f'`{show(sink[0][2][0])[:80] if sink and sink[0][2] else "nothing"}`. Iterating the table is what applies OPEN / CLOSE / '
+                         f'CLEAR, so the clauses are ignored on this path', loc(fi))
+                continue
             prod = [e for d, e in inner if e[0] == 'produce']
             want = (not present) or cls is True
             if early_exits(p, table):
